@@ -174,24 +174,30 @@ UNIT_SECS = {"s": 1, "m": 60, "h": 3600, "d": 86400}
 
 def time_exhaustive(ctx):
     quick = ctx.quick
-    mods = [1, 2, 7, 30] if quick else [1, 2, 3, 5, 7, 15, 30]
-    zones = [(0, 0), (1, 330), (1, -180), (0, 330)] if quick else \
-        [(0, 0), (1, 0), (1, 330), (1, -180), (0, 330), (1, 840), (1, -720), (1, 345)]
-    gaps = [0, 1, 2, 60, 3600, 86400, 30 * 86400] if quick else GAPS
-    L = 2 if quick else 3
-    bases = BASES if not quick else BASES[:5]
     cases = []
-    for u, mod, (loc, tz), base in itertools.product("smhd", mods, zones, bases):
-        if quick and (mod, tz) in ((7, -180), (2, 330)) and u in "hd":
-            continue
-        for gs in itertools.product(gaps, repeat=L):
-            ops = ["tz %d" % tz, "clock %d" % base, "tinit %s %d %d" % (u, mod, loc)]
-            t = base
-            for g in gs:
-                t += g
-                ops.append("tw %d 5" % t)
-            ops += ["cur", "ls"]
-            cases.append(ops)
+
+    def block(mods, zones, bases, gaps, L):
+        for u, mod, (loc, tz), base in itertools.product("smhd", mods, zones, bases):
+            if quick and (mod, tz) in ((7, -180), (2, 330)) and u in "hd":
+                continue
+            for gs in itertools.product(gaps, repeat=L):
+                ops = ["tz %d" % tz, "clock %d" % base, "tinit %s %d %d" % (u, mod, loc)]
+                t = base
+                for g in gs:
+                    t += g
+                    ops.append("tw %d 5" % t)
+                ops += ["cur", "ls"]
+                cases.append(ops)
+
+    if quick:
+        block([1, 2, 7, 30], [(0, 0), (1, 330), (1, -180), (0, 330)], BASES[:5],
+              [0, 1, 2, 60, 3600, 86400, 30 * 86400], 2)
+    else:
+        block([1, 2, 3, 5, 7, 15, 30],
+              [(0, 0), (1, 0), (1, 330), (1, -180), (0, 330), (1, 840), (1, -720), (1, 345)],
+              BASES, GAPS, 2)
+        block([1, 7, 30], [(0, 0), (1, 330), (1, -180), (1, 345)], BASES,
+              [0, 1, 60, 3600, 86400, 30 * 86400], 3)
     return cases
 
 
@@ -371,7 +377,8 @@ def main(ctx):
     scratch = os.path.join(SCRATCH, "run%d" % os.getpid())
     try:
         vlib.seq_correspondence(ctx, hcmd, dcmd, cases, nontrivial=nontrivial, keep_prefix=0,
-                                env={"VH_SCRATCH": scratch}, judge=judge, timeout=1500)
+                                env={"VH_SCRATCH": scratch}, judge=judge, timeout=1500,
+                                signature_of=lambda ops, a: "ops: " + " ; ".join(ops))
     finally:
         shutil.rmtree(scratch, ignore_errors=True)
         try:
